@@ -194,6 +194,19 @@ def run_shard(spec, rep):
             return float(g[0]), float(g[1])
 
         try:
+            # a result the caller still holds must not change when the library is called again, and tampering with a
+            # returned object must not leak into later answers
+            ra = calculate_activity_coefficients(T, mix, Composition(p=x, type=CompositionType.molar), model)
+            snap = (float(ra[0]), float(ra[1]))
+            x_other = min(0.999, max(0.001, 1 - x))
+            calculate_activity_coefficients(T, mix, Composition(p=x_other, type=CompositionType.molar), model)
+            rep.require("a returned result is not changed by later calls", (float(ra[0]), float(ra[1])) == snap, case, {"first": snap, "now": [float(ra[0]), float(ra[1])]})
+            try:
+                ra[0] = -1.0  # mutable container (list / array): spoil it
+            except TypeError:
+                pass
+            rb = calculate_activity_coefficients(T, mix, Composition(p=x, type=CompositionType.molar), model)
+            rep.require("tampering with a returned object does not affect later answers", (float(rb[0]), float(rb[1])) == snap, case, {"first": snap, "after": [float(rb[0]), float(rb[1])]})
             _one(rep, case, mix, model, T, x, zero, gam, Composition, CompositionType, get_partial_pressures)
         except Exception as e:
             rep.violation("valid thermodynamic call raised", case, {"error": repr(e)})
